@@ -570,10 +570,17 @@ func replyLayout(c *an.Ctx, parser *ssa.Function, respBuf *an.Term) {
 	}
 	// the per-server entry: the fields the server's inline writer emits and the fields the client's inline reader
 	// consumes agree in order, width and byte order (key | flag | length | location | http | tcp | udp | authorization)
-	entrySeq := func(evs []an.CodecEvent, op string) []string {
+	var entrySeq func(evs []an.CodecEvent, op string) []string
+	entrySeq = func(evs []an.CodecEvent, op string) []string {
 		var out []string
 		for _, e := range evs {
 			if e.Op != op {
+				continue
+			}
+			// append(reply, s.Serialize()...): the entry is what the server type's own encoder writes
+			if op == "W" && e.Delegate != nil && strings.Contains(an.FuncName(e.Delegate), "AuthorizedServer") {
+				c.Scope(e.Delegate)
+				out = append(out, entrySeq(p.CodecEvents(e.Delegate), "W")...)
 				continue
 			}
 			switch e.Field {
